@@ -93,6 +93,12 @@ pub fn base_stats(scn: &Scenario, res: &RunResult) -> RunStats {
     st.threads = scn.threads.len() as u64;
     st.interleaving = res.sched.signature;
     let mut fault_set = 0u64;
+    if scn.knob("max_depth").is_some() {
+        let deepest = res.log.calls.iter().filter(|c| c.parent.is_some()).count();
+        if deepest >= 100 {
+            *st.probes.entry("recursion_through_the_mock_100_levels_or_more".to_string()).or_default() += 1;
+        }
+    }
     for (t, ops) in scn.threads.iter().enumerate() {
         for (i, op) in ops.iter().enumerate() {
             if let Op::Call { fault: Some(Fault::WhileUnwinding), .. } = op {
@@ -269,7 +275,7 @@ fn gen_coarse(prop: &str, base_seed: u64, batch: &str, run: u64, rng: &mut Rng) 
                 co.min_methods = 6;
                 co.max_methods = 7;
                 co.min_patterns = 4;
-                co.max_patterns = 6;
+                co.max_patterns = if rng.chance(1, 3) { 12 } else { 6 };
                 co.ordered_pct = 0;
                 ho.max_calls = 16;
             }
@@ -281,6 +287,14 @@ fn gen_coarse(prop: &str, base_seed: u64, batch: &str, run: u64, rng: &mut Rng) 
             ho.max_calls = 15;
         }
         "C03" => {
+            // wide mocks with few calls: dozens of unmet expectations at once
+            if rng.chance(1, 15) {
+                co.min_methods = 6;
+                co.max_methods = 7;
+                co.min_patterns = 4;
+                co.max_patterns = if rng.chance(1, 2) { 12 } else { 6 };
+                ho.max_calls = 6;
+            }
             co.ordered_pct = 25;
             co.resp_weights = [50, 6, 2, 30, 0, 6, 6];
             ho.avoid_mock_panics = true;
@@ -305,9 +319,21 @@ fn gen_coarse(prop: &str, base_seed: u64, batch: &str, run: u64, rng: &mut Rng) 
             ho.steer_bounds = false;
             // the trait with a receiver-less provided fn in front of its unmockable methods
             co.pool.extend([M::S0, M::S1, M::S2, M::GpU8, M::GmU8]);
-            ho.pool.extend([M::S0, M::S1, M::S2, M::GpU8, M::GpU16, M::GmU8]);
+            ho.pool.extend([M::S0, M::S1, M::S2, M::GpU8, M::GpU16, M::GmU8, M::N0]);
         }
         _ => {}
+    }
+    // scale runs: few patterns, counts around 8 .. 300, chains of up to eight segments, hundreds of calls
+    if matches!(prop, "C02" | "C03" | "C04") && rng.chance(1, 60) {
+        co.big = true;
+        co.min_methods = 1;
+        co.min_patterns = 1;
+        co.max_methods = 2;
+        co.max_patterns = 2;
+        co.max_segs = if rng.chance(1, 2) { 12 } else { 3 };
+        co.nested_calls = false;
+        ho.max_calls = 500;
+        ho.max_threads = 2;
     }
     // swarm: vary knobs per run
     if rng.chance(1, 4) {
